@@ -1,7 +1,167 @@
 import Mustache.Basic.LineIO
+import Mustache.Model.Versions
+/-!
+Line-protocol driver of the version model (`driver versions`). Op grammar (shared with
+`harness/version_driver.cpp`, see `tools/props/versions_common.py`):
+
+```
+job <j> req=<mask> write=<mask> check=<mask> [opt=<mask>] [kind=tpl|dyn]
+chunkdefault <n> | chunkfn <mask> <min> <max>
+create <mask> | assign <e> <C> | remove <e> <C> | destroy <e>
+getmut <e> <C> | getconst <e> <C> | dirty <e> <C>
+update | run <j> | dump
+```
+A mask is a string of component letters `A`..`H` or `-`.
+-/
 namespace Mustache.Driver.Versions
-/-- stub, replaced when the model lands -/
+
+open Mustache Mustache.Versions
+
+def letterOf (c : Nat) : String := String.singleton (Char.ofNat (65 + c))
+
+def showMask (m : List Nat) : String :=
+  if m.isEmpty then "-" else String.join (m.map letterOf)
+
+def parseMask (s : String) : Option (List Nat) :=
+  if s = "-" then some []
+  else s.toList.mapM (fun ch => if 'A' ≤ ch ∧ ch ≤ 'H' then some (ch.toNat - 65) else none)
+
+def kv (ws : List String) (key : String) : Option String :=
+  ws.findSome? (fun w => if w.startsWith (key ++ "=") then some (w.drop (key.length + 1)).toString else none)
+
+def parseJob (ws : List String) : Option JobSpec := do
+  let req ← (kv ws "req").bind parseMask
+  let wr ← (kv ws "write").bind parseMask
+  let ck ← (kv ws "check").bind parseMask
+  pure ⟨normMask req, normMask ck, normMask wr⟩
+
+def showVer (v : Nat) : String := toString v
+
+def showLast (o : Option Nat) : String :=
+  match o with
+  | none => "-"
+  | some v => toString v
+
+def chunkVerOf (s : State) (e c : Nat) : String :=
+  match locate s.archs e with
+  | none => "?"
+  | some (ai, i) =>
+    match s.archs[ai]? with
+    | none => "?"
+    | some a => showVer (a.cst (i / a.cs) c)
+
+def csOf (s : State) (e : Nat) : String :=
+  match locate s.archs e with
+  | none => "?"
+  | some (ai, _) =>
+    match s.archs[ai]? with
+    | none => "?"
+    | some a => toString a.cs
+
+def showBlocks (s : State) (J : Job) : String :=
+  let parts := s.archs.filterMap (fun a =>
+    let bs := a.blocksOf J
+    if bs.isEmpty then none
+    else some (showMask a.mask ++ ":" ++ ",".intercalate (bs.map (fun p => s!"{p.1}-{p.2}"))))
+  if parts.isEmpty then "-" else ";".intercalate parts
+
+def showArch (a : Arch) : String :=
+  let head := s!"A {showMask a.mask} cs={a.cs} size={a.ents.length}"
+  if a.ents.isEmpty then head
+  else
+    let g := ",".intercalate (a.mask.map (fun c => s!"{letterOf c}:{a.gst c}"))
+    let nChunks := (a.ents.length - 1) / a.cs + 1
+    let cs := (List.range nChunks).flatMap (fun k => a.mask.map (fun c => s!"{k}:{letterOf c}:{a.cst k c}"))
+    s!"{head} ents={showCsv a.ents} g={if g.isEmpty then "-" else g} c={if cs.isEmpty then "-" else ",".intercalate cs}"
+
+def showDump (s : State) : String :=
+  " | ".intercalate ([s!"dump w={s.w}"] ++ s.archs.map showArch)
+
+def stepLine (st : State × Nat) (l : String) : IO (State × Nat) := do
+  let (s, nj) := st
+  let ws := words l
+  let bad : IO (State × Nat) := do IO.println s!"bad-op {l}"; return st
+  match ws with
+  | "job" :: _ => IO.println s!"job {nj}"; return (s, nj + 1)
+  | ["chunkdefault", n] =>
+    match n.toNat? with
+    | some n => let r := s.step (.setDefault n); IO.println (if n = 0 then "noop" else "ok"); return (r.1, nj)
+    | none => bad
+  | ["chunkfn", m, mn, mx] =>
+    match parseMask m, mn.toNat?, mx.toNat? with
+    | some m, some mn, some mx => let r := s.step (.addFn m mn mx); IO.println "ok"; return (r.1, nj)
+    | _, _, _ => bad
+  | ["create", m] =>
+    match parseMask m with
+    | some m =>
+      let r := s.step (.create m)
+      match r.2 with
+      | .created e => IO.println s!"created {e} cs={csOf r.1 e}"
+      | .error mx mn => IO.println s!"error {mx} {mn}"
+      | _ => IO.println "?"
+      return (r.1, nj)
+    | none => bad
+  | [op, e, c] =>
+    match e.toNat?, parseMask c with
+    | some e, some [c] =>
+      let mop : Option Op :=
+        match op with
+        | "assign" => some (.assign e c) | "remove" => some (.remove e c)
+        | "getmut" => some (.getMut e c) | "getconst" => some (.getConst e c)
+        | "dirty" => some (.markDirty e c) | _ => none
+      match mop with
+      | none => bad
+      | some o =>
+        let r := s.step o
+        match r.2 with
+        | .ok => IO.println s!"ok cs={csOf r.1 e}"
+        | .noop => IO.println "noop"
+        | .selfMove => IO.println "selfmove"
+        | .error mx mn => IO.println s!"error {mx} {mn}"
+        | .access true => IO.println s!"access 1 ver={chunkVerOf r.1 e c}"
+        | .access false => IO.println "access 0"
+        | _ => IO.println "?"
+        return (r.1, nj)
+    | _, _ => bad
+  | ["destroy", e] =>
+    match e.toNat? with
+    | some e =>
+      let r := s.step (.destroyNow e)
+      IO.println (match r.2 with | .ok => "ok" | _ => "noop")
+      return (r.1, nj)
+    | none => bad
+  | ["update"] => let r := s.step .update; IO.println s!"update w={r.1.w}"; return (r.1, nj)
+  | ["run", j] =>
+    match j.toNat? with
+    | some j =>
+      match s.jobs[j]? with
+      | none => bad
+      | some J =>
+        let blk := showBlocks s J
+        let r := s.jobRun j
+        let last := match r.1.jobs[j]? with | some J' => showLast J'.last | none => "-"
+        IO.println s!"run {j} n={r.2.length} ents={showCsv r.2} blk={blk} w={r.1.w} last={last}"
+        return (r.1, nj)
+    | none => bad
+  | ["dump"] => IO.println (showDump s); return st
+  | _ => bad
+
+partial def readAll (h : IO.FS.Stream) (acc : Array String) : IO (Array String) := do
+  let line ← h.getLine
+  if line.isEmpty then return acc
+  let l := line.trimAscii.toString
+  if l.isEmpty || l.startsWith "#" then readAll h acc else readAll h (acc.push l)
+
 def main (_args : List String) : IO UInt32 := do
-  IO.eprintln "driver: model Versions not built yet"
-  return 2
+  let lines ← readAll (← IO.getStdin) #[]
+  -- job objects do not interact with the world before their first run: collect the declarations first
+  let specs := lines.toList.filterMap (fun l =>
+    let ws := words l
+    match ws with
+    | "job" :: rest => parseJob rest
+    | _ => none)
+  let s0 := init { jobs := specs }
+  let _ ← lines.foldlM stepLine (s0, 0)
+  return 0
+
 end Mustache.Driver.Versions
